@@ -1,4 +1,5 @@
 """C10 — luafmt output is canonical: indentation follows nesting, layout-independent, idempotent."""
+import re
 from common import hx
 import lexutil as L
 import fmtutil as F
@@ -104,6 +105,8 @@ def run(ctx, res):
         g = gen_lua.LuaGen(rng)
         items = g.program()
         src = gen_lua.layout(rng, items, rng.choice(['lines', 'elements']), final_newline=rng.random() < 0.8)
+        # (this stream re-lays lines out around LF and CRLF; classic-Mac line ends — a lone CR, LF CR — are C09's cases)
+        src = re.sub(rb'\n\r(?!\n)|\r(?!\n)', b'\n', src)
         w = rng.randrange(0, 9)
         res.evaluations += 1
         inp = {'source': hx(src), 'indentwidth': w}
